@@ -30,7 +30,7 @@ LINK_EXCL = """[ exclusions ]
 @condition("C14.exclusions",
            anchors=["polyply.src.map_to_molecule:tag_exclusions", "polyply.src.apply_links:expand_excl", "polyply.src.graph_utils:neighborhood",
                     "polyply.src.map_to_molecule:MapToMolecule.run_molecule", "polyply.src.apply_links:ApplyLinks.run_molecule"],
-           rejects=(), selector_only=True, must_cover=["mixed", "uniform", "explicit block exclusion", "link exclusion", "three distances", "ring block", "explicit link"],
+           rejects=(), selector_only=True, must_cover=["mixed", "uniform", "explicit block exclusion", "link exclusion", "three distances", "ring block", "explicit link", "unused block with another distance"],
            stubs=["apply_links.tqdm -> plain iteration"],
            outside=["residue graphs / blocks larger than the bound", "exclusion distances above 4"],
            bounds={"quick": dict(nmax=3, excl=[0, 1, 3], sizes=[3, "ring"]), "thorough": dict(nmax=4, excl=[0, 2, 4], sizes=[3, "ring"])},
@@ -40,7 +40,7 @@ def exclusions(sx, B):
     blocks with solver-chosen exclusion distances (forked: they are hashed by the code), sizes, explicit exclusions and link-made
     bonds. Oracle: breadth-first bond-graph distances. Claim: the effective exclusion set (pairs within the molecule-wide distance
     plus the [ exclusions ] entries) equals {d(a,b) <= max(distance of a's block, distance of b's block)} plus the explicit ones;
-    with a uniform distance the molecule keeps it and no exclusion is invented."""
+    with a uniform distance the molecule keeps it and no exclusion is invented - whatever other blocks the loaded files contain."""
     n = int(sx.int("n", 2, B["nmax"]))
     shape = sx.sel("shape", sorted(GRAPHS[n]))
     names = [sx.sel("res%d" % i, ["A", "B", "C"][: (3 if n >= 3 else 2)]) for i in range(n)]
@@ -55,6 +55,10 @@ def exclusions(sx, B):
         sx.cover("ring block")
     explicit = sx.sel("explicit_link", [False, True])
     texts = [("ff", block_text_ff(specs[nm])) for nm in used]
+    if sx.sel("unused_block_in_library", [False, True]):
+        # a block that is loaded with the force field but not part of the molecule, with another exclusion distance
+        texts.insert(0, ("ff", block_text_ff(simple_block("U", 2, nrexcl=min(B["excl"]), ifdef=False))))
+        sx.cover("unused block with another distance")
     link_text = ""
     for la in used:
         for fi in used:
